@@ -1,35 +1,8 @@
 ------------------------------- MODULE MC_Asm -------------------------------
-EXTENDS Asm
-NoT == [k |-> "none", n |-> 0, s |-> "", sp |-> ""]
-N(v) == [k |-> "num", n |-> v, s |-> "", sp |-> "dec"]
-Sy(s) == [k |-> "sym", n |-> 0, s |-> s, sp |-> ""]
-E1(t) == [l |-> t, op |-> "", r |-> NoT]
-E2(a, op, b) == [l |-> a, op |-> op, r |-> b]
-S0 == [label |-> "", mn |-> "NOP", form |-> "inh", force |-> "", reg |-> "X", sub |-> "zero", acc |-> "A", ind |-> FALSE,
-       regs |-> <<>>, r1 |-> "D", r2 |-> "D", expr |-> E1(NoT), vals |-> <<>>, chars |-> <<>>]
-Tpl == {
-  S0,
-  [S0 EXCEPT !.mn = "LDA", !.form = "imm", !.expr = E1(N(5))],
-  [S0 EXCEPT !.mn = "LDX", !.form = "imm", !.expr = E1(Sy("A"))],
-  [S0 EXCEPT !.mn = "JMP", !.form = "mem", !.expr = E1(Sy("A"))],
-  [S0 EXCEPT !.mn = "STA", !.form = "mem", !.expr = E2(Sy("B"), "+", N(1))],
-  [S0 EXCEPT !.mn = "LDA", !.form = "mem", !.force = "<", !.expr = E1(N(16))],
-  [S0 EXCEPT !.mn = "LDA", !.form = "idx", !.sub = "off", !.reg = "Y", !.expr = E1(N(-20))],
-  [S0 EXCEPT !.mn = "LDY", !.form = "idx", !.sub = "off", !.reg = "U", !.expr = E1(Sy("A"))],
-  [S0 EXCEPT !.mn = "LDA", !.form = "pcr", !.expr = E1(Sy("A"))],
-  [S0 EXCEPT !.mn = "LEAX", !.form = "pcr", !.ind = TRUE, !.expr = E1(Sy("B"))],
-  [S0 EXCEPT !.mn = "BRA", !.form = "rel", !.expr = E1(Sy("A"))],
-  [S0 EXCEPT !.mn = "LBNE", !.form = "rel", !.expr = E1(Sy("B"))],
-  [S0 EXCEPT !.mn = "FDB", !.form = "fdb", !.vals = <<E1(Sy("A")), E1(N(4660))>>],
-  [S0 EXCEPT !.mn = "FCB", !.form = "fcb", !.vals = <<E1(N(-1)), E1(N(255))>>],
-  [S0 EXCEPT !.mn = "RMB", !.form = "rmb", !.expr = E1(N(125))],
-  [S0 EXCEPT !.mn = "RMB", !.form = "rmb", !.expr = E1(N(3))],
-  [S0 EXCEPT !.mn = "EQU", !.form = "equ", !.expr = E1(N(300))],
-  [S0 EXCEPT !.mn = "ORG", !.form = "org", !.expr = E1(N(240))],
-  [S0 EXCEPT !.mn = "ORG", !.form = "org", !.expr = E1(N(4096))] }
+EXTENDS AsmTemplates
 VARIABLES prog, phase, sizes, iter, why, out
-M == INSTANCE AsmRef WITH MaxN <- 2, Templates <- Tpl, LabelNames <- {"A", "B"}
-M3 == INSTANCE AsmRef WITH MaxN <- 3, Templates <- Tpl, LabelNames <- {"A", "B"}
+M == INSTANCE AsmRef WITH MaxN <- 2, Templates <- Tpl, LabelNames <- {"LA", "LB"}
+M3 == INSTANCE AsmRef WITH MaxN <- 3, Templates <- Tpl, LabelNames <- {"LA", "LB"}
 Spec2 == M!Spec
 Spec3 == M3!Init /\ [][M3!Next]_<<prog, phase, sizes, iter, why, out>>
 CertOK == M!CertOK
